@@ -1873,14 +1873,19 @@ impl Server {
             _ => return Ok(RespFrame::error("ERR invalid key format")),
         };
         
-        let mut new_members = 0;
-        
-        // Process each score-member pair
-        for i in (2..parts.len()).step_by(2) {
+        // Parse and validate every score-member pair first: a ZADD that is refused adds nothing
+        let mut pairs: Vec<(f64, Vec<u8>)> = Vec::with_capacity((parts.len() - 2) / 2);
+        let mut i = 2;
+        while i < parts.len() {
             let score = match &parts[i] {
                 RespFrame::BulkString(Some(bytes)) => {
                     match String::from_utf8_lossy(bytes).parse::<f64>() {
-                        Ok(n) => n,
+                        Ok(n) => {
+                            if n.is_nan() {
+                                return Ok(RespFrame::error("ERR value is not a valid float"));
+                            }
+                            n
+                        }
                         Err(_) => return Ok(RespFrame::error("ERR value is not a valid float")),
                     }
                 }
@@ -1892,7 +1897,13 @@ impl Server {
                 _ => return Ok(RespFrame::error("ERR invalid member format")),
             };
             
-            // Add to sorted set 
+            pairs.push((score, member));
+            i += 2;
+        }
+        
+        // Add to sorted set
+        let mut new_members = 0;
+        for (score, member) in pairs {
             if self.storage.zadd(db, key.clone(), member, score)? {
                 new_members += 1;
             }
